@@ -21,7 +21,7 @@ def pool(rng, n):
         v = rng.choice(NAMES)
         w = rng.choice(NAMES)
         val = rng.choice(["0.5", "3", "1+2j", "2.5e-1", "7"])
-        k = i % 14
+        k = i % 17
         if k == 0:
             s, _ = gen.gen_script(rng, {"depth": 2, "max_items": 5})
             out.append(("valid", gen.render(s)))
@@ -49,6 +49,17 @@ def pool(rng, n):
         elif k == 13:
             # not a load: the included file is rewritten on disk between two loads
             out.append(("rewrite-include", WRITE + "inc_ok.xbb\n" + INC_OK[rng.randrange(len(INC_OK))]))
+        elif k == 14:
+            # includes a file that includes a file which other steps of the history create and delete
+            out.append(("include-with-nested-file", 'name h\nversion 1.0\ninclude "inc_mid.xbb"\n\nMid | [1, 0]\nG(%s) | 0\n' % val))
+        elif k == 15:
+            out.append(("create-nested-file", WRITE + "inc_leaf.xbb\n" + "name Leaf\nversion 1.0\n\nK(%s) | 0\n" % val))
+        elif k == 16:
+            if i % 34 == 16:
+                out.append(("delete-nested-file", DELETE + "inc_leaf.xbb"))
+            else:
+                # deeper than the interpreter's default recursion limit allows: RecursionError in a pristine process
+                out.append(("very-deep-nesting", H + "\nG(" + "(" * 1200 + "1" + ")" * 1200 + ") | 0\n"))
         elif k == 10:
             out.append(("fails-in-include", 'name h\nversion 1.0\ninclude "inc_bad_%s.xbb"\n\nG | 0\n' % v))
         else:
@@ -57,13 +68,15 @@ def pool(rng, n):
 
 
 WRITE = "#!write "
+DELETE = "#!delete "
+INC_MID = "name Mid\nversion 1.0\ninclude \"inc_leaf.xbb\"\n\nLeaf | 0\nH(0.5) | 1\n"
 INC_OK = ["name Sub\nversion 1.0\n\nG(1, 0.5) | 0\nH(0.25, k=[1, 2]) | [0, 1]\n",
           "name Sub\nversion 1.0\n\nG(2, 0.75) | 1\nH(0.5, k=[3]) | [1, 0]\nK | 0\n",
           "name Sub\nversion 1.0\n\nH(7) | [0, 1]\n"]
 
 
 def include_files():
-    files = {"inc_ok.xbb": INC_OK[0]}
+    files = {"inc_ok.xbb": INC_OK[0], "inc_mid.xbb": INC_MID}
     for v in NAMES:
         files["inc_bad_%s.xbb" % v] = "name Inc%s\nversion 1.0\n\nfloat %s = 0.25\nfor int k in 1:3\n    G(k, undefined_inside) | k\n" % (v, v)
     return files
@@ -92,17 +105,26 @@ def o_history_in(texts, root):
     progs = []
     with open(os.path.join(root, "inc_ok.xbb"), "w", encoding="utf-8") as f:
         f.write(INC_OK[0])
-    version = INC_OK[0]
+    leaf = os.path.join(root, "inc_leaf.xbb")
+    if os.path.exists(leaf):
+        os.remove(leaf)
+    version = {"inc_ok.xbb": INC_OK[0], "inc_leaf.xbb": None}
     for i, t in enumerate(texts):
         if t.startswith(WRITE):
             fn, content = t[len(WRITE):].split("\n", 1)
             with open(os.path.join(root, fn), "w", encoding="utf-8") as f:
                 f.write(content)
-            version = content
+            version[fn] = content
+            continue
+        if t.startswith(DELETE):
+            fn = t[len(DELETE):]
+            if os.path.exists(os.path.join(root, fn)):
+                os.remove(os.path.join(root, fn))
+            version[fn] = None
             continue
         here, obj = oracles.outcome_here(t)
-        uses_file = "inc_ok.xbb" in t
-        key = (root, t, version if uses_file else None)
+        key = (root, t, version["inc_ok.xbb"] if "inc_ok.xbb" in t else None,
+               version["inc_leaf.xbb"] if "inc_mid.xbb" in t else None)
         if key not in _FRESH:
             _FRESH[key] = oracles.fresh_request({"text": t, "cwd": root, "chdir": root})
         fresh = _FRESH[key]
@@ -138,7 +160,7 @@ def replay(ctx, data):
 def run(ctx):
     ctx.rule = ("histories of 2-8 loads drawn from a pool of valid scripts, templates, scripts failing at each stage "
                 "(syntax, undefined name after a definition, inside a loop, inside an include, wrong mode type, "
-                "array type), scripts that include a file which other steps of the history rewrite on disk, and scripts whose target/type options mention names, all over a small set of colliding "
+                "array type), scripts that include a file which other steps of the history rewrite on disk, scripts whose include has a nested include that other steps create and delete (missing file, then present), a script nested deeper than the default recursion limit, and scripts whose target/type options mention names, all over a small set of colliding "
                 "variable and parameter names; each load's outcome (operations, parameters, variables, options, "
                 "serialisation, or error class with identifier and position) is compared with its outcome in a "
                 "forked child of a process that has never loaded anything; returned programs are scanned for shared "
@@ -164,7 +186,8 @@ def run(ctx):
         msg = check_history(texts, root)
         if msg:
             ctx.violation("history: " + msg, {"kind": "history", "texts": texts})
-        if not any(k in ("fails-in-include", "valid-include", "rewrite-include") for k in kinds):
+        if not any(k in ("fails-in-include", "valid-include", "rewrite-include", "include-with-nested-file",
+                         "create-nested-file", "delete-nested-file", "very-deep-nesting") for k in kinds):
             lines.append(core.cmd("HIST", "/", *texts))
             hists.append(texts)
     shutil.rmtree(root, ignore_errors=True)
